@@ -96,6 +96,12 @@ def cache_sizes() -> int:
 
 # --------------------------------------------------------------------------
 def _alarm(signum, frame):
+    # an exception raised inside a gc / finaliser hook is swallowed by the interpreter: wait for the next tick
+    f = frame
+    while f is not None:
+        if f.f_code.co_name in ("gc_callback", "__del__"):
+            return
+        f = f.f_back
     raise CaseTimeout()
 
 
@@ -207,7 +213,7 @@ def guarded(acc: Acc, kind: str, case, fn, timeout_s: float, isolate: bool = Tru
     if isolate:
         reset_caches()
     signal.signal(signal.SIGALRM, _alarm)
-    signal.setitimer(signal.ITIMER_REAL, timeout_s)
+    signal.setitimer(signal.ITIMER_REAL, timeout_s, 0.05)  # re-fires: a CaseTimeout swallowed by a gc/finaliser hook must not disarm the cap
     try:
         return fn(case)
     except CaseTimeout:
@@ -278,10 +284,11 @@ def process(mod, acc: Acc, kind: str, case, layer: str, timeout_s: float | None 
 
 def fails(mod, kind, case, bucket=None) -> list[dict]:
     acc = Acc()
-    guarded(acc, kind, case, lambda c: mod.evaluate(kind, c, acc), 60.0)
+    guarded(acc, kind, case, lambda c: mod.evaluate(kind, c, acc), 2 * getattr(mod, "CASE_TIMEOUT", 10.0))
     out = [f for lst in acc.failures.values() for f in lst]
     if bucket is not None:
-        out = [f for f in out if f["bucket"] == bucket]
+        # the part after "|" is descriptive (atom classes) and may change while shrinking
+        out = [f for f in out if f["bucket"].split("|")[0] == bucket.split("|")[0]]
     return out
 
 
